@@ -4,14 +4,17 @@ import (
 	"bytes"
 	"fmt"
 	"io"
+	"runtime"
 	"strconv"
 	"strings"
+	"sync/atomic"
 	"time"
 
 	"gcverif/internal/fsdrv"
 	"gcverif/internal/hx"
 
 	"github.com/goatcms/goatcore/filesystem/filespace/memfs"
+	"github.com/goatcms/goatcore/filesystem/fscache"
 	"github.com/goatcms/goatcore/filesystem/fshelper"
 	"github.com/goatcms/goatcore/verifhook"
 )
@@ -26,6 +29,7 @@ type outcome struct {
 	fails  []string // property clauses that failed (oracle mode only)
 	fired  bool     // the injected fault was reached
 	counts map[string]int
+	tags   []string // histogram keys of this case (schedule observed, backend, yield point reached)
 }
 
 // guarded runs f under recover and the watchdog.
@@ -550,6 +554,331 @@ func caseWrq(args []string, oracle bool) (o outcome, ok bool) {
 }
 
 // ---------------------------------------------------------------------------------------------
+// rdq / scopyq: a reader that stays open while the same file is rewritten
+// ---------------------------------------------------------------------------------------------
+
+// the backends whose streams are memfs handles: mem, encmem, cache (the file lives in the cache's buffer),
+// rcache (fscache whose file lives in the remote memfs, so that the rewrite goes to another file, in the buffer)
+func knownQBackend(b string) bool {
+	return b == "mem" || b == "encmem" || b == "cache" || b == "rcache"
+}
+
+func (w *world) buildQ(backend string, ents []entry) (FS, error) {
+	if backend != "rcache" {
+		return w.build(backend, ents, false)
+	}
+	remote, err := memfs.NewFilespace()
+	if err != nil {
+		return nil, err
+	}
+	if err = populate(remote, ents); err != nil {
+		return nil, err
+	}
+	return fscache.NewMemCache(remote)
+}
+
+func parseSizesQ(tok string) ([]int, bool) {
+	if tok == "-" {
+		return nil, true
+	}
+	var sizes []int
+	for _, t := range strings.Split(tok, ",") {
+		n, err := strconv.Atoi(t)
+		if err != nil || n < 0 || n > 1<<24 {
+			return nil, false
+		}
+		sizes = append(sizes, n)
+	}
+	return sizes, true
+}
+
+// rewriter is the other goroutine of an rdq/scopyq case: Writer(path), one Write per chunk, Close.
+type rewriter struct {
+	id       chan int64
+	done     chan error
+	finished bool
+	err      error
+	hook     int32 // the yield point memfs.writer.open was reached
+}
+
+func startRewriter(fs FS, path string, chunks [][]byte) *rewriter {
+	rw := &rewriter{id: make(chan int64, 1), done: make(chan error, 1)}
+	verifhook.Set(func(pt string) {
+		if pt == "memfs.writer.open" {
+			atomic.StoreInt32(&rw.hook, 1)
+		}
+	})
+	go func() {
+		rw.id <- hx.GoID()
+		var rerr error
+		if p, v := hx.Guard(func() {
+			wr, err := fs.Writer(path)
+			if err != nil {
+				rerr = err
+				return
+			}
+			for _, c := range chunks {
+				if n, err := wr.Write(c); err != nil || n != len(c) {
+					rerr = fmt.Errorf("write failed")
+				}
+			}
+			if err := wr.Close(); err != nil {
+				rerr = err
+			}
+		}); p {
+			rerr = fmt.Errorf("panic: %v", v)
+		}
+		rw.done <- rerr
+	}()
+	return rw
+}
+
+// settle waits — generously — for what must happen: the rewriter either runs to its end (`free`) or comes to
+// rest on a lock (`wait`; the runtime's wait reason of the goroutine, observed twice).  `stuck`: neither within
+// 20 s.
+func (rw *rewriter) settle() string {
+	id := <-rw.id
+	deadline := time.Now().Add(20 * time.Second)
+	for i := 0; ; i++ {
+		select {
+		case rw.err = <-rw.done:
+			rw.finished = true
+			return "free"
+		default:
+		}
+		if st, ok := hx.GoroutineStatus(id); ok && hx.ParkedOnLock(st) {
+			time.Sleep(300 * time.Microsecond)
+			if st2, ok2 := hx.GoroutineStatus(id); ok2 && hx.ParkedOnLock(st2) {
+				select {
+				case rw.err = <-rw.done:
+					rw.finished = true
+					return "free"
+				default:
+				}
+				return "wait"
+			}
+		}
+		if time.Now().After(deadline) {
+			return "stuck"
+		}
+		if i < 50 {
+			runtime.Gosched()
+		} else {
+			time.Sleep(100 * time.Microsecond)
+		}
+	}
+}
+
+// join waits for the rewriter's end (the case's watchdog bounds it).
+func (rw *rewriter) join() error {
+	if !rw.finished {
+		rw.err = <-rw.done
+		rw.finished = true
+	}
+	return rw.err
+}
+
+func flat(chunks [][]byte) []byte {
+	out := []byte{}
+	for _, c := range chunks {
+		out = append(out, c...)
+	}
+	return out
+}
+
+func caseRdq(args []string, oracle bool) (o outcome, ok bool) {
+	if len(args) != 5 || !knownQBackend(args[0]) || !isNat(args[2]) {
+		return o, false
+	}
+	backend := args[0]
+	old, err := hx.Dec(args[1])
+	split, _ := strconv.Atoi(args[2])
+	sizes, g1 := parseSizesQ(args[3])
+	chunks, g2 := parseChunks(args[4])
+	if err != nil || !g1 || !g2 {
+		return o, false
+	}
+	if split > len(sizes) {
+		split = len(sizes)
+	}
+	path := "d/f"
+	return guarded(func() outcome {
+		w := &world{}
+		defer w.close()
+		defer verifhook.Set(nil)
+		fs, err := w.buildQ(backend, []entry{{path: "d", isDir: true}, {path: path, data: old}})
+		if err != nil {
+			return outcome{line: "setup-err", fails: []string{"setup: " + err.Error()}}
+		}
+		want := flat(chunks)
+		res := outcome{}
+		rd, err := fs.Reader(path)
+		if err != nil {
+			return outcome{line: "err", fails: []string{"Reader of an existing file failed"}}
+		}
+		var items []string
+		var all []byte
+		bad, eofSeen := false, false
+		read := func(szs []int) {
+			for _, sz := range szs {
+				b := make([]byte, sz)
+				n, err := rd.Read(b)
+				if n < 0 || n > sz || (err != nil && err != io.EOF) {
+					bad = true
+					return
+				}
+				all = append(all, b[:n]...)
+				flag := "c"
+				if err == io.EOF {
+					flag = "e"
+					eofSeen = true
+					if oracle && !bytes.Equal(all, old) {
+						res.fails = append(res.fails, fmt.Sprintf("EOF reported after %s; the file held %s when the reader was opened "+
+							"(the rewrite: %s)", hx.Enc(all), hx.Enc(old), hx.Enc(want)))
+					}
+				} else if oracle && eofSeen && sz > 0 {
+					res.fails = append(res.fails, "a read after EOF did not report EOF")
+				}
+				if oracle && sz > 0 && n == 0 && err == nil {
+					res.fails = append(res.fails, "a read with a non-empty buffer delivered nothing and no EOF")
+				}
+				items = append(items, hx.Enc(b[:n])+":"+flag)
+			}
+		}
+		read(sizes[:split])
+		// the rewrite of the same file is started while the reader is open
+		rw := startRewriter(fs, path, chunks)
+		sched := rw.settle()
+		if !bad {
+			read(sizes[split:])
+		}
+		if err := rd.Close(); err != nil {
+			bad = true
+		}
+		if werr := rw.join(); werr != nil {
+			bad = true
+			res.fails = append(res.fails, "the rewriting stream failed: "+werr.Error())
+		}
+		var got []byte
+		if !bad {
+			if got, err = fs.ReadFile(path); err != nil {
+				bad = true
+			}
+		}
+		res.tags = append(res.tags, "rdq-sched:"+sched, "qbackend:"+backend)
+		if atomic.LoadInt32(&rw.hook) != 0 {
+			res.tags = append(res.tags, "rdq-hook:memfs.writer.open")
+		}
+		if bad {
+			res.line = "err"
+			if oracle {
+				res.fails = append(res.fails, "Read / Close of the open reader, the rewriting stream or the final ReadFile failed")
+			}
+			return res
+		}
+		rdTok := "rd"
+		if len(items) > 0 {
+			rdTok = "rd " + strings.Join(items, ",")
+		}
+		res.line = "ok " + sched + " " + rdTok + " " + hx.Enc(got)
+		if oracle {
+			if !bytes.HasPrefix(old, all) {
+				res.fails = append(res.fails, fmt.Sprintf("the reader, opened on %s, delivered %s (buffers %s, the rewrite %s was started after "+
+					"%d reads): bytes that were not the file's content", hx.Enc(old), hx.Enc(all), args[3], args[4], split))
+			}
+			if !bytes.Equal(got, want) {
+				res.fails = append(res.fails, fmt.Sprintf("after the reader and the rewriting stream were closed the file holds %s; the "+
+					"chunks concatenate to %s", hx.Enc(got), hx.Enc(want)))
+			}
+			if sched == "stuck" {
+				res.fails = append(res.fails, "the rewriting stream neither finished nor came to rest on the file's lock within 20 s")
+			}
+		}
+		return res
+	}), true
+}
+
+func caseScopyq(args []string, oracle bool) (o outcome, ok bool) {
+	if len(args) != 7 || !knownQBackend(args[0]) || !knownBackend(args[1]) || !isNat(args[4]) {
+		return o, false
+	}
+	sb, db := args[0], args[1]
+	old, err := hx.Dec(args[2])
+	split, _ := strconv.Atoi(args[4])
+	sizes, g1 := parseSizesQ(args[5])
+	chunks, g2 := parseChunks(args[6])
+	if err != nil || !g1 || !g2 {
+		return o, false
+	}
+	path := "d/f"
+	dstEnts := []entry{{path: "d", isDir: true}}
+	if args[3] != "absent" {
+		d, err := hx.Dec(args[3])
+		if err != nil {
+			return o, false
+		}
+		dstEnts = append(dstEnts, entry{path: path, data: d})
+	}
+	return guarded(func() outcome {
+		w := &world{}
+		defer w.close()
+		defer verifhook.Set(nil)
+		srcRaw, err := w.buildQ(sb, []entry{{path: "d", isDir: true}, {path: path, data: old}})
+		if err != nil {
+			return outcome{line: "setup-err", fails: []string{"setup: " + err.Error()}}
+		}
+		dstRaw, err := w.build(db, dstEnts, false)
+		if err != nil {
+			return outcome{line: "setup-err", fails: []string{"setup: " + err.Error()}}
+		}
+		want := flat(chunks)
+		p := newPlan(sizes, "", 0, false)
+		var rw *rewriter
+		sched := "none"
+		p.gateAt = split
+		p.gate = func() {
+			rw = startRewriter(srcRaw, path, chunks)
+			sched = rw.settle()
+		}
+		res := outcome{}
+		err = fshelper.StreamCopy(&faultFS{FS: srcRaw, p: p, src: true}, &faultFS{FS: dstRaw, p: p, src: false}, path)
+		var werr error
+		if rw != nil {
+			werr = rw.join()
+		}
+		d := fsdrv.Dump(dstRaw)
+		srcAfter, rerr := srcRaw.ReadFile(path)
+		res.tags = append(res.tags, "scopyq-sched:"+sched, "qbackend:"+sb)
+		if werr != nil || rerr != nil {
+			res.line = "err-rewriter"
+			res.fails = append(res.fails, fmt.Sprintf("the rewriting stream or the final ReadFile of the source failed: %v %v", werr, rerr))
+			return res
+		}
+		res.line = okErr(err) + " " + sched + " " + d + " src=" + hx.Enc(srcAfter)
+		if oracle {
+			if err != nil {
+				res.fails = append(res.fails, "StreamCopy failed although no fault was injected and the destination is writable: "+err.Error())
+			} else {
+				tree := func(content []byte) refTree { return refTree{"d": nil, path: content} }
+				if diffTree(d, tree(old)) != "" && diffTree(d, tree(want)) != "" {
+					res.fails = append(res.fails, fmt.Sprintf("StreamCopy returned nil but the destination is a copy neither of the source's old "+
+						"content %s nor of its new content %s (the rewrite was started before read %d of the copy): %s",
+						hx.Enc(old), hx.Enc(want), split, clip(d)))
+				}
+			}
+			if !bytes.Equal(srcAfter, want) {
+				res.fails = append(res.fails, fmt.Sprintf("after the copy and the rewriting stream the source holds %s; the chunks concatenate to %s",
+					hx.Enc(srcAfter), hx.Enc(want)))
+			}
+			if sched == "stuck" {
+				res.fails = append(res.fails, "the rewriting stream neither finished nor came to rest on the file's lock within 20 s")
+			}
+		}
+		return res
+	}), true
+}
+
+// ---------------------------------------------------------------------------------------------
 // rd
 // ---------------------------------------------------------------------------------------------
 
@@ -839,6 +1168,10 @@ func runLine(line string, oracle bool) outcome {
 		o, ok = caseWr(f[1:], oracle)
 	case "wrq":
 		o, ok = caseWrq(f[1:], oracle)
+	case "rdq":
+		o, ok = caseRdq(f[1:], oracle)
+	case "scopyq":
+		o, ok = caseScopyq(f[1:], oracle)
 	case "rd":
 		o, ok = caseRd(f[1:], oracle)
 	case "scopy":
